@@ -69,6 +69,15 @@ def load_registry():
 
 # ----------------------------------------------------------------------------- kani
 
+MEM_LIMIT_GB = int(os.environ.get("VERIF_MEM_GB", "12"))
+
+
+def _limit_mem():
+    import resource
+    lim = MEM_LIMIT_GB * (1 << 30)
+    resource.setrlimit(resource.RLIMIT_AS, (lim, lim))
+
+
 def run_kani(scratch, pkg, harnesses, timeout_s, harness_timeout=600, extra=None):
     src = scratch + "/src"
     cmd = ["cargo", "kani", "-p", pkg, "-Z", "stubbing", "-Z", "function-contracts",
@@ -85,7 +94,7 @@ def run_kani(scratch, pkg, harnesses, timeout_s, harness_timeout=600, extra=None
     t0 = time.time()
     try:
         p = subprocess.Popen(cmd, cwd=src, env=env, stdout=subprocess.PIPE, stderr=subprocess.STDOUT,
-                             text=True, start_new_session=True)
+                             text=True, start_new_session=True, preexec_fn=_limit_mem)
         try:
             out, _ = p.communicate(timeout=timeout_s)
             rc = p.returncode
@@ -145,7 +154,7 @@ def parse_kani(out, harnesses):
                 if i + 1 < len(lines) and lines[i + 1].startswith(" File:"):
                     loc = lines[i + 1].strip()
                 r["failed_checks"].append({"desc": desc, "loc": loc})
-            if ln.startswith("CBMC timed out") or ln.startswith("CBMC failed"):
+            if ln.startswith("CBMC timed out") or ln.startswith("CBMC failed") or ln.startswith("CBMC appears to have run out of memory"):
                 r["tool_failure"] = ln.strip()
             m = re.match(r"^VERIFICATION:- (\w+)", ln)
             if m:
